@@ -31,7 +31,7 @@ def plan(tier: str, seed: int) -> list[dict]:
 def gen_records(rng: random.Random) -> list[dict]:
     recs = []
     pos = rng.choice([0, 1, 0x200, 0x7FFF, 0x10000, 0x123456, rng.randrange(1 << 22)])
-    for _ in range(rng.choice([0, 1, 1, 2, 3, 5, 9])):
+    for _ in range(rng.choice([0, 1, 1, 2, 3, 5, 9]) if rng.random() < 0.93 else rng.choice([65, 257, 600])):
         c = rng.random()
         if c < 0.3:
             off = pos                                   # adjacent to the previous record
